@@ -79,6 +79,20 @@ def gen_streams(c):
 
 def main():
     c = Check("C07")
+    # a run against a mutated tree (VERIF_REPO != /repo: seeded changes, mutation self-tests) regenerates Gen.lean in the
+    # shared lean/ directory; other properties import it, so put the previous content back when this run ends
+    if os.path.realpath(REPO) != "/repo":
+        import atexit
+        saved = {}
+        for g in ['C07']:
+            gp = os.path.join(LEAN, "Cppcms", g, "Gen.lean")
+            if os.path.exists(gp):
+                saved[gp] = open(gp).read()
+        def _restore():
+            for gp, txt in saved.items():
+                if open(gp).read() != txt:
+                    open(gp, "w").write(txt)
+        atexit.register(_restore)
     c.rule = ("case = one operation line of a cache history (block starting with `new <backend> <limit>`): exhaustive op "
               "sequences to depth 3..5 over 2 keys/2 triggers/3 deadlines with clock ticks, random histories of 50-400 ops "
               "(3-40 keys, shared key/trigger names, clock steps forwards/jumps/backwards, limits 0,1,2,3,8, thread and "
